@@ -1092,7 +1092,7 @@ def _make_generated(spec, td):
     return path
 
 
-C11_VARIANTS_A = ["pretty_zip", "folder_default", "folder_plain", "flat_xml"]
+C11_VARIANTS_A = ["pretty_zip", "folder_default", "folder_plain", "flat_xml", "pretty_zip_edited", "folder_default_edited"]
 C11_VARIANTS_B = ["memory_plain", "memory_plain_parsed", "memory_pretty", "memory_pretty_parsed", "memory_folder",
                   "twice_plain", "pretty_then_plain"]
 
@@ -1123,6 +1123,28 @@ def _c11_call(con, fn, argvals, labels):
             def fresh():
                 return _open_source(src, td)[0]
 
+            if variant.endswith("_edited"):
+                # the same comparison on a document edited in memory and not saved yet: a file added (manifest and
+                # binary part changed), the title set
+                def edited():
+                    d = fresh()
+                    png = os.path.join(td, "verif_c11.png")
+                    with open(png, "wb") as fh:
+                        fh.write(PNG_BYTES)
+                    d.add_file(png)
+                    d.meta.title = MARK
+                    return d
+                base = _read_zip(_save_zip_bytes(edited(), False))[1]
+                if variant == "pretty_zip_edited":
+                    other = _read_zip(_save_zip_bytes(edited(), True))[1]
+                    _compare_documents("edited in memory: pretty=True vs pretty=False (zip)", base, other, res)
+                else:
+                    target = os.path.join(td, "out_e.odt")
+                    edited().save(target, packaging="folder")
+                    other = _read_folder(target + ".folder")[0]
+                    _compare_documents("edited in memory: folder (default options) vs plain zip", base, other, res)
+                res.outcome = f"{variant}: {len(base)} parts"
+                return res
             if variant in C11_VARIANTS_A:
                 base = _read_zip(_save_zip_bytes(fresh(), False))[1]
                 if variant == "pretty_zip":
